@@ -20,6 +20,9 @@ pub struct Case {
     pub limit: u16,
     pub how: LimitHow,
     pub ops: Vec<Op>,
+    /// server roles: sink futures created (and polled once) while the handshake service is still running; true = dropped at once
+    #[serde(default)]
+    pub pre: Vec<(SendKind, bool)>,
 }
 
 fn fail(c: &Case, rule: &str, detail: String) -> Failure {
@@ -27,7 +30,7 @@ fn fail(c: &Case, rule: &str, detail: String) -> Failure {
 }
 
 pub async fn run_case(c: Case) -> Result<CaseInfo, Failure> {
-    let mut w = World::start(c.role, c.limit, c.how, 64).await.map_err(|f| fail(&c, "harness-handshake", f.detail))?;
+    let mut w = World::start_pre(c.role, c.limit, c.how, 64, None, &|_| {}, &c.pre).await.map_err(|f| fail(&c, "harness-handshake", f.detail))?;
     // the negotiated window is visible through credit()
     if w.eut.credit() != Some(w.limit) {
         return Err(fail(&c, "initial-credit", format!("send limit {} established via {:?} but credit() = {:?}", c.limit, c.how, w.eut.credit())));
@@ -137,8 +140,8 @@ pub fn op_strategy() -> BoxedStrategy<Op> {
 }
 
 fn case_strategy(role: Role) -> BoxedStrategy<Case> {
-    (1u16..5, prop::sample::select(vec![LimitHow::Config, LimitHow::Handshake, LimitHow::PeerLower, LimitHow::PeerHigher, LimitHow::HandshakeAbovePeer, LimitHow::HandshakeBelowPeer]), prop::collection::vec(op_strategy(), 3..26))
-        .prop_map(move |(limit, how, ops)| Case { role, limit, how, ops })
+    (1u16..5, prop::sample::select(vec![LimitHow::Config, LimitHow::Handshake, LimitHow::PeerLower, LimitHow::PeerHigher, LimitHow::HandshakeAbovePeer, LimitHow::HandshakeBelowPeer]), prop::collection::vec(op_strategy(), 3..26), prop_oneof![3 => Just(Vec::new()), 1 => prop::collection::vec((send_kind(), any::<bool>()), 1..5)])
+        .prop_map(move |(limit, how, ops, pre)| Case { role, limit, how, ops, pre: if role.is_server() { pre.into_iter().map(|(k, d)| (if matches!(k, SendKind::Subscribe | SendKind::Unsubscribe) { SendKind::Qos1 } else { k }, d)).collect() } else { Vec::new() } })
         .boxed()
 }
 
